@@ -502,11 +502,15 @@ func emitRecords(r *Rng, tier string, types []uint16) (printed []string) {
 	for i := 0; i < 12; i++ {
 		t := []uint16{65280, 999, 0, 65535, 11, 22}[i%6]
 		rd := r.Bytes([]int{0, 1, 7, 40}[i%4])
-		u := &dns.RFC3597{Hdr: dns.RR_Header{Name: "u.example.", Rrtype: t, Class: uint16(1 + i), Ttl: uint32(i)}, Rdata: Hx(rd)}
+		ttl := uint32(i)
+		if i%3 == 2 {
+			ttl = 4294967295 - uint32(i)
+		}
+		u := &dns.RFC3597{Hdr: dns.RR_Header{Name: "u.example.", Rrtype: t, Class: uint16(1 + i), Ttl: ttl}, Rdata: Hx(rd)}
 		text := u.String()
 		cols, rest, _ := splitHeader(text)
 		Emit("present3597", []string{Hx(rd)}, Hs(rest))
-		Emit("hdr3597", []string{Hs(u.Hdr.Name), Itoa(i), Itoa(1 + i), Itoa(int(t))}, Hs(strings.Join(cols[:], "\t")+"\t"))
+		Emit("hdr3597", []string{Hs(u.Hdr.Name), strconv.FormatUint(uint64(ttl), 10), Itoa(1 + i), Itoa(int(t))}, Hs(strings.Join(cols[:], "\t")+"\t"))
 		Emit("rr", []string{Hs(text + "\n")}, showRRAs(text+"\n", "generic"))
 		printed = append(printed, text)
 	}
